@@ -280,7 +280,8 @@ fn main() {
                     round += 1;
                     let list = scratch.join(format!("list-{w}-{round}.txt"));
                     std::fs::write(&list, todo.iter().map(|i| format!("{}\t{}\n", i, ms[*i].dir.display())).collect::<String>()).unwrap();
-                    let mut ch = Command::new(exe).arg("child").arg(&list).stdout(Stdio::piped()).stderr(Stdio::null())
+                    let errf = scratch.join(format!("stderr-{w}-{round}.txt"));
+                    let mut ch = Command::new(exe).arg("child").arg(&list).stdout(Stdio::piped()).stderr(Stdio::from(std::fs::File::create(&errf).unwrap()))
                         .env("RUST_MIN_STACK", "8388608").spawn().unwrap();
                     let so = ch.stdout.take().unwrap();
                     let (tx, rx) = std::sync::mpsc::channel::<String>();
@@ -311,7 +312,11 @@ fn main() {
                                 let st = ch.wait().ok();
                                 if let Some(id) = current.take() {
                                     use std::os::unix::process::ExitStatusExt;
-                                    let how = st.map(|s| s.signal().map(|x| format!("signal{x}")).unwrap_or(format!("exit{}", s.code().unwrap_or(-1)))).unwrap_or("?".into());
+                                    let mut how = st.map(|s| s.signal().map(|x| format!("signal{x}")).unwrap_or(format!("exit{}", s.code().unwrap_or(-1)))).unwrap_or("?".into());
+                                    let tail = std::fs::read(&errf).map(|b| String::from_utf8_lossy(&b[b.len().saturating_sub(600)..]).to_string()).unwrap_or_default();
+                                    if tail.contains("overflowed its stack") { how = format!("{how}_stack_overflow"); }
+                                    else if tail.contains("memory allocation of") { how = format!("{how}_alloc_failure"); }
+                                    else if tail.contains("panic in a function that cannot unwind") || tail.contains("panicked while") { how = format!("{how}_double_panic"); }
                                     out.push((id, format!("abort {how}"))); done.push(id);
                                 }
                                 break;
@@ -328,6 +333,28 @@ fn main() {
         }
         for h in hs { for (id, r) in h.join().unwrap() { results[id] = Some(r); } }
     });
+    // a compile that exceeded the cap is re-run alone with 8x the cap before it is called a hang
+    for i in 0..ms.len() {
+        if results[i].as_deref() == Some("hang") {
+            let list = scratch.join(format!("rerun-{i}.txt"));
+            std::fs::write(&list, format!("{}\t{}\n", i, ms[i].dir.display())).unwrap();
+            let mut ch = Command::new(&exe).arg("child").arg(&list).stdout(Stdio::piped()).stderr(Stdio::null()).spawn().unwrap();
+            let t0 = Instant::now();
+            let mut verdict = "hang".to_string();
+            loop {
+                if let Ok(Some(_)) = ch.try_wait() {
+                    let mut sout = String::new();
+                    use std::io::Read;
+                    let _ = ch.stdout.take().unwrap().read_to_string(&mut sout);
+                    verdict = sout.lines().find_map(|l| l.strip_prefix(&format!("RES {i} ")).map(|x| x.to_string())).unwrap_or("abort rerun".into());
+                    break;
+                }
+                if t0.elapsed() > per_compile_cap * 8 { let _ = ch.kill(); let _ = ch.wait(); break; }
+                std::thread::sleep(Duration::from_millis(300));
+            }
+            results[i] = Some(verdict);
+        }
+    }
     let mut out = std::io::BufWriter::new(std::fs::File::create(&a.out).unwrap());
     for m in &ms {
         let res = results[m.id].clone().unwrap_or_else(|| "notrun".into());
